@@ -163,6 +163,39 @@ Definition heap_remove (h : heap) (idx : nat) : option (heap * option node) :=
       | Some ns => Some (mkheap ns sz (hcap h), Some removed)
       end.
 
+(* the for loop of muggle_heap_clear: nodes[i].key = nodes[i].value = NULL for i = 1 .. size
+   (a non-NULL key / value is first handed to its free callback, when there is one) *)
+Fixpoint clear_loop (n : nat) (ns : list node) (i : nat) : list node :=
+  match n with
+  | O => ns
+  | S n' => clear_loop n' (upd i null_node ns) (S i)
+  end.
+
+(* muggle_heap_clear: every slot 1..size is released and NULLed, size becomes 0, the storage and the
+   capacity stay - whatever the free callbacks are (NULL ones included).  Second component: the nodes
+   whose key / value are handed to the free callbacks, in call order (nodes[1], nodes[2], ...). *)
+Definition heap_clear (h : heap) : heap * list node :=
+  (mkheap (clear_loop (hsize h) (nodes h) 1) 0 (hcap h), firstn (hsize h) (skipn 1 (nodes h))).
+
+(* WHICH of the two free callbacks are passed (cbk / cbv = false: NULL) never changes what the heap
+   operation does to the heap; it only decides what is handed out: a callback that is not passed sees
+   nothing (id 0).  muggle_heap_remove / muggle_heap_clear with that per-call choice: *)
+Definition handed (cbk cbv : bool) (nd : node) : node :=
+  ((if cbk then fst nd else 0%nat), (if cbv then snd nd else 0%nat)).
+
+Definition heap_remove_cb (cbk cbv : bool) (h : heap) (idx : nat) : option (heap * option node) :=
+  match heap_remove h idx with
+  | Some (h', Some nd) => Some (h', Some (handed cbk cbv nd))
+  | r => r
+  end.
+
+Definition heap_clear_cb (cbk cbv : bool) (h : heap) : heap * list node :=
+  (fst (heap_clear h), map (handed cbk cbv) (snd (heap_clear h))).
+
+(* muggle_heap_destroy = clear, then the node array is freed (the heap object is dead until the next
+   init): only the released nodes remain observable *)
+Definition heap_destroy (h : heap) : list node := snd (heap_clear h).
+
 (* ------------------------------------------------------------- insertion *)
 
 (* inner loop of muggle_insertion_sort on ptr + base; j counts down *)
